@@ -218,9 +218,63 @@ def use_prop(v):
 def lam_user(x):
     f = lambda y: (y, x)
     return f(1)
+
+def mutate_and_return(lst):
+    lst.append("added")
+    return lst
+
+def fill_dict(d):
+    d["k2"] = [1]
+    d.setdefault("k3", None)
+    return d
+
+def gen_mutating(acc):
+    acc.append(1)
+    yield acc
+    acc.append("s")
+    yield acc
+    return acc
+
+import abc
+import enum
+
+
+class AbcShape(abc.ABC):
+    @staticmethod
+    def make(n):
+        return [n]
+
+    def area(self, k):
+        return k
+
+    @classmethod
+    def build(cls, n):
+        return cls.make(n)
+
+
+class AbcSquare(AbcShape):
+    def area(self, k):
+        return super().area(k) + 1
+
+    @classmethod
+    def build(cls, n):
+        return super().build(n)
+
+
+class Colour(enum.Enum):
+    RED = 1
+
+    @staticmethod
+    def parse(s):
+        return s
+
+    def shade(self, k):
+        return (self, k)
 '''
 
 NESTING_CALLS = [
     "M.top(1)", "M.top('a')", "M.top_propagates(1)", "M.rec(3)", "M.rec(0)", "M.rec_raises(2)", "M.consume(2)", "M.consume(0)",
     "M.use_prop(1)", "M.use_prop([1])", "M.lam_user(2)", "M.mid_catches(None)", "getattr(M.Prop(1), 'broken', None)",
+    "M.mutate_and_return([1])", "M.fill_dict({'k1': 0})", "list(M.gen_mutating([]))",
+    "M.AbcShape.make(1)", "M.AbcSquare().area(2)", "M.AbcSquare.build(3)", "M.Colour.parse('x')", "M.Colour.RED.shade(1)",
 ]
